@@ -18,7 +18,7 @@ import (
 
 func init() {
 	register(&Prop{ID: "C13", Gen: c13Gen, Oracle: c13Oracle,
-		Rule: "fork enumeration over (|A|, common prefix p, |B|, tile height, client position a, presented head b <,=,> a, tile source, cold/warm cache, long-lived / restarted / second client on the shared configuration, fresh client shown B first), plus stale-head replays on one log; non-trivial = both heads lie beyond the common prefix or the head moves; distinct by scenario line"})
+		Rule: "fork enumeration over (|A|, common prefix p, |B|, tile height, client position a, presented head b <,=,> a, tile source, cold/warm cache, long-lived / restarted / second client on the shared configuration, fresh client shown B first), plus stale-head replays on one log, plus an exhaustive small-scope sweep (tile height, a, b, p) of an equivocating server splicing the other tree's hashes into its tiles entry by entry (all tiles / only the widest version of each partial tile); non-trivial = both heads lie beyond the common prefix or the head moves; distinct by scenario line"})
 }
 
 // c13StrictAfterSecurity: see the report — after a fork was reported through SecurityError a long-lived client whose
@@ -421,7 +421,7 @@ func c13SpliceCases(g *Gen) []c13Case {
 	type hs struct{ h, max int }
 	scope := []hs{{2, 13}, {3, 11}}
 	if thorough {
-		scope = []hs{{1, 9}, {2, 21}, {3, 36}, {4, 36}}
+		scope = []hs{{1, 9}, {2, 21}, {3, 20}, {4, 20}}
 	}
 	wseed := g.U64()%1000 + 1
 	var cases []c13Case
@@ -451,15 +451,17 @@ func c13SpliceCases(g *Gen) []c13Case {
 						}
 						second := fmt.Sprintf("%s look=0:B%d look=0:B%dm", srv, b-1, g.Intn(b))
 						tag := fmt.Sprintf("splice/%s/%s/h%d", kind, dir, sc.h)
-						if !thorough && (a+b+p+ki)%2 == 0 {
-							emitOne := strings.Join([]string{head, first, second, back}, " ")
-							cases = append(cases, c13Case{emitOne, tag + "/long"})
-							continue
+						long := c13Case{strings.Join([]string{head, first, second, back}, " "), tag + "/long"}
+						restart := c13Case{strings.Join([]string{head, first, "new=0", second, back}, " "), tag + "/restart"}
+						switch {
+						case thorough:
+							cases = append(cases, long, restart)
+						case (a+b+p+ki)%2 == 0:
+							// quick tier: one of the two client shapes per point, alternating
+							cases = append(cases, long)
+						default:
+							cases = append(cases, restart)
 						}
-						if thorough {
-							cases = append(cases, c13Case{strings.Join([]string{head, first, second, back}, " "), tag + "/long"})
-						}
-						cases = append(cases, c13Case{strings.Join([]string{head, first, "new=0", second, back}, " "), tag + "/restart"})
 					}
 				}
 			}
